@@ -114,16 +114,28 @@ class Program:
         files = sorted(f for f in os.listdir(self.pkgdir) if f.endswith(".py"))
         if not files:
             raise AnalysisError("no python files found in " + self.pkgdir)
+        parsed = []
         for fn in files:
             path = os.path.join(self.pkgdir, fn)
             with open(path, "rb") as fh:
                 raw = fh.read()
             try:
                 src = raw.decode("utf-8")
-                tree = _Canon().visit(ast.parse(src, filename=path))
+                tree = ast.parse(src, filename=path)
             except (SyntaxError, UnicodeDecodeError) as e:
                 raise AnalysisError(f"cannot parse {path}: {e}") from e
-            name = fn[:-3]
+            parsed.append((fn[:-3], path, src, raw, tree))
+        # helper functions that did not exist on the reference tree are folded into their callers (see asv/inline.py)
+        from .inline import inline_new_helpers, reference_functions
+
+        self.folded_helpers: list[str] = []
+        try:
+            self.folded_helpers = inline_new_helpers({n: t for n, _, _, _, t in parsed}, reference_functions())
+        except RecursionError:
+            self.folded_helpers = []
+        for name, path, src, raw, tree in parsed:
+            tree = _Canon().visit(tree)
+            ast.fix_missing_locations(tree)
             m = Module(name, path, src, hashlib.sha256(raw).hexdigest(), tree, src.splitlines())
             self.modules[name] = m
             self._index(m)
